@@ -398,6 +398,9 @@ class RegqComponent(Component):
         m = jsonable(res["model"][0])
         i = jsonable(impl["out"])
         i[1] = [int(x) if isinstance(x, bool) else x for x in i[1]]
+        for k in (0, 2):                        # queue contents: a private attribute, compared when observable
+            if str(i[k]) == "unavailable":
+                m[k] = i[k]
         ndeq = sum(1 for o in impl["ops"] if o[0] == "deq")
         c = dict(case)
         c["ops"] = impl["ops"]
@@ -1081,6 +1084,15 @@ class FlowComponent(Component):
         i = jsonable(impl)
         nodes_m, caps_m, t_m, flows_m, abs_m, det_m = m
         nodes_i, caps_i, t_i, flows_i, verdict_i = i
+        if str(verdict_i) == "unavailable":
+            # the private helpers are gone or changed shape: nothing to compare (the loader stream decides)
+            return std_report(case, True, m, i, {}, tags=["flow:private-helpers-unavailable"], in_domain=False,
+                              nontrivial=False)
+        if str(nodes_i) == "unavailable":
+            nodes_i, caps_i, t_i, flows_i = nodes_m, caps_m, t_m, flows_m       # steps not observable
+            steps_tag = ["flow:steps-unavailable"]
+        else:
+            steps_tag = []
         graph_same = nodes_m == nodes_i and sorted(caps_m) == sorted(caps_i) and t_m == t_i
         if isinstance(det_m, list) and str(det_m[0]) == "crash":
             det_m = ["crash", {"error": "NetworkXError", "unbounded": "NetworkXUnbounded"}.get(str(det_m[2]), str(det_m[2]))]
@@ -1090,7 +1102,7 @@ class FlowComponent(Component):
         kinds = sorted({str(f[1]) for f in flows_i}) or ["noports"]
         return std_report(case, agree, m, i, {}, tags=[f"verdict:{verdict_i[0] if isinstance(verdict_i, list) else verdict_i}",
                                                        f"nodes:{len(nodes_i)}", f"split:{len(nodes_i) - len(case['units'])}"] +
-                          [f"flow:{k}" for k in kinds],
+                          [f"flow:{k}" for k in kinds] + steps_tag,
                           nontrivial=len(case["units"]) >= 3 and bool(case["ins"]))
 
 
